@@ -92,14 +92,17 @@ CLAIMS = {
          "permuted / re-inserted / duplicated / near-miss variants including members that collide in CPython's hash table.",
          "Trusted: Coq kernel + vm_compute; model; harness; names are ints or ASCII strings.",
          "DESIGN.md section 4, C17"),
- "C06": ("Coq exchange lemma + verified brute-force optimum; ParCons runs judged in Coq against them",
-         "PARTIAL proof. Machine-checked for all tables: the exchange lemma, hence every ordered partition without back arcs admits an "
-         "optimal consensus ranking earlier groups strictly before later ones; a component whose pairs can all be tied at minimal cost is "
-         "solved by the single bucket; opt (brute force over all position functions) is a lower bound of every ranking with ties and is "
-         "attained; verified checker for the partition returned by the library (is_partition_of, no_back_arcs). Judged per run in Coq, not "
-         "proved for all inputs: consensus respects the reported weak partition, flag = (no component delegated), flag => score = opt "
-         "(universes <= 6/7), model SCCs = library SCCs as sets.",
-         "Trusted: Coq kernel + vm_compute; model; harness; CBC (through PuLP), igraph and the auxiliary heuristics are outside the model and only judged per run.",
+ "C06": ("Coq theorems: exchange lemma, decomposition of the optimum along a partition, model of the ParCons assembly (sub-solvers as parameters) and its flag; model = code by vm_compute correspondence incl. the recorded sub-solver calls",
+         "Machine-checked for all tables / datasets: every ordered partition without back arcs admits an optimal consensus ranking earlier "
+         "groups strictly before later ones (exchange lemma); the concatenation of optimal consensuses of the groups is a global optimum "
+         "(C06_assembled_optimal); the sub-problem given to a sub-solver (projection + re-added empty rankings) has the cost table of the whole "
+         "problem on the group (C06_sub_problem_table); the model of the ParCons assembly returns a ranking of the universe respecting the "
+         "partition, sets the mark exactly when no component goes to the auxiliary algorithm (C06_flag_iff), and a marked consensus is a "
+         "global minimiser provided the exact sub-solver returns sub-problem optima (C06_parcons; that premise is property C05). Per run, in "
+         "Coq: model assembly = library consensus and flag, one recorded sub-solver call per non-trivial component on exactly the model's "
+         "sub-problem, model SCCs = library SCCs as sets, verified no-back-arc test on the library's partition, flag => score = verified "
+         "brute-force optimum (universes <= 6/7).",
+         "Trusted: Coq kernel + vm_compute; model tied by correspondence; harness (records sub-solver calls by wrapping them); CBC (through PuLP), igraph and the auxiliary heuristics are outside the model and only judged per run.",
          "DESIGN.md section 4, C06"),
  "C07": ("Coq theorems on the model of the ParFront merge loop (strict exchange + transitivity) and of consistent_with (total, iff); model = code by vm_compute correspondence",
          "Machine-checked end to end on the model: from ANY partition of the universe without back arcs, the merge loop terminates, "
